@@ -158,6 +158,7 @@ fn run(case: &Case, cx: &mut Cx) -> CaseResult {
             if only.as_ref().map_or(false, |o| *o != inner) {
                 continue;
             }
+            crate::engine::heartbeat();
             st.reset();
             let ctl = crate::hooks::Ctl::new(&w.arch, Plan::FreezeAtKey { key: key.clone(), torn: false });
             let hook: ops::Hook = Some(ctl.clone() as std::sync::Arc<dyn conserve::transport::verif::Interceptor>);
@@ -186,7 +187,8 @@ fn run(case: &Case, cx: &mut Cx) -> CaseResult {
                 if only.as_ref().map_or(false, |o| *o != inner) {
                     continue;
                 }
-                st.reset();
+                crate::engine::heartbeat();
+            st.reset();
                 let ctl = crate::hooks::Ctl::new(&w.arch, Plan::FailAtKey { key: l.key.clone(), kind });
                 let hook: ops::Hook = Some(ctl.clone() as std::sync::Arc<dyn conserve::transport::verif::Interceptor>);
                 let rr = ops::delete_bands(&w.arch, &hook, &st.requested, false, false);
